@@ -257,6 +257,9 @@ func x01Damage(g *Gen, s string) (string, string) {
 	}
 }
 
+// x01Clean: no damage, no odd elements (half of the random cases; the other half mixes everything)
+var x01Clean bool
+
 var x01Ops = []string{"", "=", "==", "!", "!=", ">", ">=", "<", "<="}
 
 // one comparator text; kind describes what was done to it
@@ -265,7 +268,11 @@ func x01Comparator(g *Gen, near *x01V) (string, string) {
 	w := x01Near(g, near, true)
 	vt := w.text()
 	kind := "plain"
-	switch g.R.Intn(14) {
+	roll := g.R.Intn(14)
+	if x01Clean && (roll == 3 || roll == 4 || roll == 6) {
+		roll = 13
+	}
+	switch roll {
 	case 0: // wildcards
 		vt = strconv.FormatUint(w.n[0], 10) + "." + strconv.FormatUint(w.n[1], 10) + ".x"
 		kind = "patchx"
@@ -297,7 +304,11 @@ func x01Comparator(g *Gen, near *x01V) (string, string) {
 }
 
 func x01SpecElem(g *Gen, near *x01V) (string, string) {
-	switch g.R.Intn(20) {
+	roll := g.R.Intn(20)
+	if x01Clean {
+		roll = 19
+	}
+	switch roll {
 	case 0:
 		return "", "empty"
 	case 1:
@@ -450,10 +461,11 @@ func genX01(g *Gen) {
 	// (2) structured random strings: mostly valid versions against ranges built around a nearby version
 	n := g.N(6000, 120000)
 	for c := 0; c < n; c++ {
+		x01Clean = c%2 == 0
 		base := x01RndV(g, true)
 		ver := x01Near(g, base, true).text()
 		vk := "ok"
-		if g.R.Intn(7) == 0 {
+		if !x01Clean && g.R.Intn(4) == 0 {
 			ver, vk = x01Damage(g, ver)
 		}
 		ne := g.R.Pick(0, 1, 1, 1, 1, 2, 2, 3, 4)
